@@ -80,6 +80,15 @@ CHECKS["C06"] = ("DESIGN.md C06",
     "for every equal representative. The finite-domain part is an exhaustive enumeration that the "
     "solver merely drives.")
 
+CHECKS["C08"] = ("DESIGN.md C08",
+    "Strings of length <= 3 (thorough 5) over unconstrained characters (hashed positions: a "
+    "13-character adversarial alphabet), ints given by up to 12 symbolic digits with sign, "
+    "13 nesting shapes to depth 3, alone and inside list/set/map-key/map-value/nested shapes: "
+    "real __repr__ -> real Lexer -> parse -> evaluate must return an equal value of the same type "
+    "that renders to the same text; sets/maps of distinct symbolic ints render identically in "
+    "every insertion order. Decimal rendering (repr(float) is C code) is a concrete ladder and "
+    "outside the solver claim.")
+
 NA = {}
 
 
